@@ -218,6 +218,21 @@ theorem deref_some {e : Env R} {v : Nat} {k : Kind} {h : Nat} {o : Obj R}
           obtain ⟨rfl, rfl⟩ := hd
           exact ⟨ho, hst, by simpa using hk⟩
 
+theorem deref_var {e : Env R} {v : Nat} {k : Kind} {h : Nat} {o : Obj R}
+    (hd : deref e v k = .ok (h, o)) : e.vars v = some h := by
+  unfold deref at hd
+  split at hd
+  · simp at hd
+  · rename_i h0 hv
+    split at hd
+    · simp at hd
+    · split at hd
+      · simp at hd
+      · split at hd
+        · simp at hd
+        · simp only [Res.ok.injEq, Prod.mk.injEq] at hd
+          rw [hv, hd.1]
+
 theorem callR_reach (t : Tid) (pol : Policy) (s s' : HState R) (op : ROp) (r : RRes)
     (h : callR pol s op = .ok (s', r)) : Reach HKind t s.env s'.env := by
   unfold callR at h
@@ -674,5 +689,95 @@ theorem Reach.errFrame {t : Tid} {e e' : Env R} (h : Reach P t e e') : ErrFrame 
 theorem topStep_lastErr_frame (pol : Policy) (prog : Prog) (e e' : Env R) (c : Call R.Chunk)
     (h : topStep pol prog e c = .ok e') (t' : Tid) (ht : t' ≠ c.tid) :
     e'.lastErr t' = e.lastErr t' := (topStep_reach pol prog e e' c h).errFrame t' ht
+
+/-! ### Ledger discipline along primitive steps -/
+
+/-- Handles are never reused, kinds never change, and a freed object is never touched again. -/
+theorem Reach.kind_stable {t : Tid} {e e' : Env R} (hr : Reach P t e e') (h : Nat) (o : Obj R)
+    (ho : e.objs[h]? = some o) :
+    ∃ o', e'.objs[h]? = some o' ∧ o'.p.kind = o.p.kind ∧ (o.st = .freed → o' = o) := by
+  induction hr generalizing o with
+  | refl => exact ⟨o, ho, rfl, fun _ => rfl⟩
+  | step p _ ih =>
+    obtain ⟨o1, ho1, hk1, hf1⟩ := p.kind_stable h o ho
+    obtain ⟨o2, ho2, hk2, hf2⟩ := ih o1 ho1
+    refine ⟨o2, ho2, hk2.trans hk1, fun hf => ?_⟩
+    have := hf1 hf; subst this; exact hf2 hf
+
+/-- The drop-callback log agrees with the ledger: the callback of handler `sid` has run once if its box
+    has been dropped (and it has a callback), and not at all otherwise. -/
+def DropInv (e : Env R) : Prop :=
+  ∀ sid, e.drops.count sid =
+    match e.objs[sid]? with
+    | some ⟨.freed, .shandler _ true⟩ => 1
+    | _ => 0
+
+theorem DropInv.init : DropInv (Env.init R) := by
+  intro sid; simp [Env.init]
+
+theorem Prim.dropInv {t : Tid} {e e' : Env R} (hp : Prim P t e e') (hi : DropInv e) : DropInv e' := by
+  intro sid
+  have hsid := hi sid
+  cases hp with
+  | frame h1 h2 _ => rw [h1, h2]; exact hsid
+  | alloc p _ h1 h2 _ =>
+    rw [h1, h2]
+    rcases Nat.lt_or_ge sid e.objs.length with hl | hl
+    · rw [List.getElem?_append_left hl]; exact hsid
+    · rw [List.getElem?_eq_none hl] at hsid
+      rcases Nat.lt_or_ge e.objs.length sid with hl2 | hl2
+      · rw [List.getElem?_eq_none (by simp; omega)]; exact hsid
+      · have : sid = e.objs.length := by omega
+        subst this
+        simp only [List.getElem?_append_right (Nat.le_refl _), Nat.sub_self, List.getElem?_cons_zero]
+        exact hsid
+  | upd h o o' _ ho hst hk hsh h1 h2 _ =>
+    rw [h1, h2]
+    by_cases heq : h = sid
+    · subst heq
+      have hlt : h < e.objs.length := by
+        rcases Nat.lt_or_ge h e.objs.length with hl | hl
+        · exact hl
+        · rw [List.getElem?_eq_none hl] at ho; cases ho
+      rw [List.getElem?_set_self hlt]
+      rw [ho] at hsid
+      rw [hsid]
+      -- neither the old (not freed) nor the new object is a freed streaming handler
+      obtain ⟨st, p⟩ := o
+      obtain ⟨st', p'⟩ := o'
+      cases p' with
+      | shandler sc hd =>
+        have hks : p.kind = .shandler := by simpa [Payload.kind] using hk.symm
+        obtain ⟨hnf, hpp⟩ := hsh hks
+        simp only at hnf hpp hst
+        subst hpp
+        cases st <;> cases st' <;> simp_all
+      | _ =>
+        cases p <;> simp_all [Payload.kind] <;> cases st <;> simp_all
+    · rw [List.getElem?_set_ne heq]; exact hsid
+  | dropH s0 st script hasDrop _ ho hst h1 h2 _ =>
+    rw [h1, h2]
+    by_cases heq : s0 = sid
+    · subst heq
+      have hlt : s0 < e.objs.length := by
+        rcases Nat.lt_or_ge s0 e.objs.length with hl | hl
+        · exact hl
+        · rw [List.getElem?_eq_none hl] at ho; cases ho
+      rw [List.getElem?_set_self hlt]
+      rw [ho] at hsid
+      have h0 : e.drops.count s0 = 0 := by
+        rw [hsid]; cases st <;> cases hasDrop <;> simp_all
+      cases hasDrop <;> simp [h0]
+    · rw [List.getElem?_set_ne heq]
+      cases hasDrop
+      · simpa using hsid
+      · simp only [if_true]
+        rw [List.count_cons_of_ne heq]
+        exact hsid
+
+theorem Reach.dropInv {t : Tid} {e e' : Env R} (hr : Reach P t e e') (hi : DropInv e) : DropInv e' := by
+  induction hr with
+  | refl => exact hi
+  | step p _ ih => exact ih (p.dropInv hi)
 
 end LolHtml.Lemmas.CApi
